@@ -346,6 +346,12 @@ func jobsFor(prop, tier string) []*Job {
 					Bounds: "three servers with symbolic weights 1..3, symbolic rotation state (0..3 warm-up selections), symbolic target server: request without cookie, request with the target's cookie, the same cookie after the target was removed, then a cookie nobody issued (5 forms); real http cookie parsing/formatting interpreted"})
 			}
 		}
+		for _, kind := range []int{0, 3, 5} {
+			for rb := 0; rb < 2; rb++ {
+				add(&Job{Name: fmt.Sprintf("O4-cookies-over-time/%s,rebalancer=%d", names[kind], rb), Pkg: "roundrobin", Harness: "VerifC11Fresh", Grid: 1e9, Params: p("kind", kind, "rebalancer", rb, "rounds", 3),
+					Bounds: "three servers of weight 1; a first visit without cookie, then 3 rounds of idle time from {0,4,10,11,25 s} (symbolic; cookie lifetime of the expiring codecs 10 s) followed by a request presenting the cookie last received: a cookie within its lifetime goes to its server, every cookie handed out pins the client at once"})
+			}
+		}
 	case "C08":
 		for part := 0; part < 16; part++ {
 			add(&Job{Name: fmt.Sprintf("O1O2-director-pipeline/mode=%d,part=%d,lower=%d", part/4%2, part%4, part/8), Pkg: "forward", Harness: "VerifC08Pipeline", Params: p("part", part%4, "mode", part/4%2, "lower", part/8), IncKind: "cvc5", TimeoutS: 60, Solvers: []string{"cvc5", "z3"},
